@@ -1072,6 +1072,10 @@ pub fn run_all(ctx: &Ctx, semantic: bool) -> Report {
 }
 
 pub fn run_all_h(ctx: &Ctx, semantic: bool, hash: bool) -> Report {
+    if std::env::var("VERIF_ONLY").map(|v| v == "midscale").unwrap_or(false) {
+        // development aid (never set by the registered commands): the mid-scale / wide regime alone
+        return crate::props::sddmid::run(ctx, semantic);
+    }
     let mut rep = Report::new(
         "SDD-builder histories on the real code against truth tables: per configuration (vtree x compression on/off x table capacity) all functions of n variables are built in one long-lived builder, every ordered pair (n = 3; a stride slice for n = 4) is combined by and/or/xor/iff, every function negated/conditioned/quantified, composed with every function on every variable, ite over a pool; every node reachable from every result is checked for the vtree normal form (compression on); a slice of operations is repeated in a cold builder and compared structurally; distinct = (configuration, operation, arguments)",
     );
@@ -1085,6 +1089,9 @@ pub fn run_all_h(ctx: &Ctx, semantic: bool, hash: bool) -> Report {
     };
     rep.merge(r);
     if !hash {
+        let md = crate::props::sddmid::run(ctx, semantic);
+        rep.add_extra("sdd_mid_transitions", md.transitions);
+        rep.merge(md);
         let w = run_wide(ctx, semantic);
         rep.merge(w);
         let m = run_mux(ctx, semantic);
@@ -1250,6 +1257,7 @@ pub fn run_cold_only(ctx: &Ctx) -> Report {
     cfgs.sort_by_key(|c| std::cmp::Reverse(c.n));
     let r = par_run(ctx, &cfgs, |_, c| run_cfg(c, ctx));
     rep.merge(r);
+    rep.merge(crate::props::sddmid::run_cold(ctx));
     rep.bound("sdd_warm_vs_cold", json!({"configurations": cfgs.len(), "n=3": "all vtrees, compression on (without compression diagrams are not canonical and their structure may depend on allocation addresses; only their function is promised, which C03 checks)", "n=4": "every 8th operand-pool configuration"}));
     rep
 }
@@ -1423,7 +1431,9 @@ pub fn run_mux(ctx: &Ctx, semantic: bool) -> Report {
 
 pub fn replay_for(ctx: &Ctx, prop: &str, case: &Value) -> Report {
     let mut rep = Report::default();
-    if let Some(cfg) = SCfg::from_json(&case["cfg"]) {
+    if case["kind"].as_str() == Some("sdd_mid") {
+        rep.merge(crate::props::sddmid::replay(ctx, case));
+    } else if let Some(cfg) = SCfg::from_json(&case["cfg"]) {
         if case["kind"].as_str() == Some("sdd_mux") {
             rep.merge(run_mux_cfg(&cfg));
         } else if case["kind"].as_str() == Some("sdd_wide") {
